@@ -69,7 +69,7 @@ inline void run_group(const ApiGroup& G, const BoxOpts& o, const std::function<v
     case F_VEC: {
       const VecOp& op = VECOPS[G.sub];
       std::vector<int64_t> ps = {0};
-      if (op.has_p) ps = op.model == 'r' ? std::vector<int64_t>{1, (int64_t)N + 3} : std::vector<int64_t>{3, (int64_t)(2 * N - 1)};
+      if (op.has_p) ps = op.model == 'r' ? std::vector<int64_t>{1, (int64_t)N + 3, (int64_t)(2 * N)} : std::vector<int64_t>{3, (int64_t)(2 * N - 1), (int64_t)(2 * N + 1)};  // incl. the identity maps X^(2N) and X -> X^(2N+1)
       const std::vector<uint64_t>& rsls = op.res_big ? one : strides;
       const std::vector<uint64_t>& asls = (op.a_big || op.nin < 1) ? one : strides;
       const std::vector<uint64_t>& bsls = (op.b_big || op.nin < 2) ? one : strides;
